@@ -106,9 +106,14 @@ _LAYOUT = [0]
 LAYOUTS_ENABLED = True
 
 
-def new_case():
-    _LAYOUT[0] = 0
-    _PROV[0] = 0
+def new_case(case=None):
+    """Reset the rotation counters; their starting points depend (deterministically) on the case itself, so that also the
+    FIRST object built in a case meets every layout / provenance across the cases of a check."""
+    import json
+    import zlib
+    h = zlib.crc32(json.dumps(case, sort_keys=True, default=str).encode()) if case is not None else 0
+    _LAYOUT[0] = h % 3
+    _PROV[0] = (h // 3) % 4
 
 
 def _layout(data):
